@@ -25,5 +25,7 @@ for part in [x.strip() for x in sys.argv[2].split(';') if x.strip()]:
     r[part.split()[0]]=part
 m['results']=r; m['check_result']='; '.join(r[k] for k in sorted(r)); json.dump(m,open(p,'w'),indent=1)
 PY
+# restore generated Coq tables and evidence files: they must describe /repo itself, not the seeded tree
+git -C /verif checkout -- coq/gen evidence 2>/dev/null
 git -C /repo worktree remove --force $wt; rm -f /tmp/seedrun.$id.log
 tag=$(python3 -c "import hashlib,sys;print(hashlib.sha1(sys.argv[1].encode()).hexdigest()[:8])" $wt); rm -rf /verif/build/bin-$tag /verif/build/gomod-$tag
